@@ -186,6 +186,14 @@ func modeC18(e *Env) {
 	n := e.N(150, 2500)
 	for i := 0; i < n; i++ {
 		rep := randRep(e.R, 1+e.R.Intn(4), 5, 1<<31-10)
+		// server ids that share their first k bytes (k = 0..15 in turn) and differ arbitrarily after them: the order of the
+		// canonical form is the order of ALL sixteen bytes
+		near := nearSids(e.R, len(rep)+3, i%16)
+		if i%2 == 0 {
+			for j := range rep {
+				rep[j].Sid = near[j]
+			}
+		}
 		set := buildSet(rep)
 		var ops []M
 		var obs []M
@@ -217,6 +225,9 @@ func modeC18(e *Env) {
 				g = replication.Mysql56GTID{Server: replication.SID(en.Sid), Sequence: last.E + 2 + int64(j*7) + int64(e.R.Intn(5))}
 			} else {
 				g = replication.Mysql56GTID{Server: replication.SID(sidN(1 + e.R.Intn(6))), Sequence: 1 + e.R.Int63n(1<<31-12)}
+				if i%2 == 0 {
+					g.Server = replication.SID(near[e.R.Intn(len(near))])
+				}
 			}
 			next := cur.AddGTID(g)
 			all = append(all, next)
@@ -270,6 +281,23 @@ func pairCase(e *Env, cls string, a, b []sidEntry) {
 	sa, sb := buildSet(a), buildSet(b)
 	emitCase(e, M{"fn": "gs56.pair", "cls": cls, "a": repJ(a), "b": repJ(b),
 		"obs": M{"contains": sa.Contains(sb), "equal": sa.Equal(sb)}})
+}
+
+// nearSids returns n distinct server ids with a common prefix of k bytes.
+func nearSids(r *rand.Rand, n int, k int) [][16]byte {
+	var base [16]byte
+	r.Read(base[:])
+	seen := map[[16]byte]bool{}
+	var out [][16]byte
+	for len(out) < n {
+		s := base
+		r.Read(s[k:])
+		if !seen[s] {
+			seen[s] = true
+			out = append(out, s)
+		}
+	}
+	return out
 }
 
 // ---- C19 ---------------------------------------------------------------------------------------
@@ -380,10 +408,14 @@ func modeC19(e *Env) {
 		if i%10 == 0 {
 			rep = nil
 		}
+		near := nearSids(e.R, len(rep)+1, (i/3)%16)
 		for j := range rep {
 			rep[j].Sid = specialSid(e.R)
 			if j > 0 && rep[j].Sid == rep[j-1].Sid {
 				rep[j].Sid[3] ^= 0x55
+			}
+			if i%3 == 2 {
+				rep[j].Sid = near[j] // members that share their first k bytes: the canonical order looks at all sixteen
 			}
 		}
 		uniq := map[[16]byte]bool{}
